@@ -285,8 +285,7 @@ def c04_3(ctx):
         ctx.ob(R, "spend-execution-cost", ok, "a spend's execution_cost is the clvm_cost it was created with; condition_cost starts at 0")
 
 
-def c04_4(ctx):
-    R = "C04.4"
+def c04_4(ctx, R="C04.4", eps_only=None):
     fb = ctx.fb
     b = U.body(ctx, R, CC + "run_block_generator::subtract_cost")
     if b:
@@ -305,6 +304,8 @@ def c04_4(ctx):
         "run_spendbundle": {"byte": "calculate", "runs": 1},
     }
     for ep, want in eps.items():
+        if eps_only is not None and ep not in eps_only:
+            continue
         fs = [f for p, f in fb.fns.items() if (p.startswith(CC + "run_block_generator::" + ep) or p.startswith(CC + "spendbundle_conditions::" + ep))
               and f.e["kind"] == "Fn" and p.split("::")[-1].split("<")[0] == ep]
         if len(fs) != 1:
